@@ -1,8 +1,8 @@
-from translators import t3_legend
+from translators import t3_legend, t_lsp_pico
 
 ID = "C22"
 TITLE = "Formatting preserves meaning and is idempotent"
-TRANSLATORS = [t3_legend.translate]
+TRANSLATORS = [t3_legend.translate, t_lsp_pico.translate]
 LEAN_MODULES = ["IsoVerif.Props.C22", "IsoVerif.Props.C23"]
 THEOREMS = ["IsoVerif.Props.C22.C22_table", "IsoVerif.Props.C22.C22_kept_only", "IsoVerif.Props.C22.C22_idem",
             "IsoVerif.Props.C22.C22_tokens", "IsoVerif.Props.C22.C22_separated", "IsoVerif.Props.C22.C22_breaks",
